@@ -151,6 +151,11 @@ fn http_request(port: u16, token: &str) -> String {
     "unknowninvocable" => ("POST", format!("/evaluate/{}/NoSuchDecision", rest), "{}".to_string()),
     "badcontext" => ("POST", format!("/evaluate/{}/Greeting%20Message", rest), "{ this is : not a context".to_string()),
     "tckempty" => ("POST", "/tck/evaluate".to_string(), "{}".to_string()),
+    // well-formed JSON with a string (or another type) where the endpoint expects something else: the extractor's message quotes the text
+    "tckstring" => ("POST", "/tck/evaluate".to_string(), "{\"model\":\"a\",\"invocable\":\"Greeting Message\",\"input\":\"none \\\"quoted\\\" \\\\ text\"}".to_string()),
+    "tcknil" => ("POST", "/tck/evaluate".to_string(), "{\"model\":\"a\",\"invocable\":\"Greeting Message\",\"input\":[{\"name\":\"x\",\"value\":{\"simple\":{\"type\":\"xsd:string\",\"text\":\"a\",\"isNil\":\"false\"}}}]}".to_string()),
+    "wrongtype" => ("POST", format!("/definitions/{}", rest), "{\"content\": [\"a\"], \"namespace\": {\"q\": 1}, \"name\": true}".to_string()),
+    "stringforobject" => ("POST", format!("/definitions/{}", rest), "\"just a \\\"string\\\"\"".to_string()),
     "notfound" => ("GET", "/no/such/endpoint".to_string(), String::new()),
     _ => ("GET", "/system/info".to_string(), String::new()),
   };
@@ -182,6 +187,9 @@ fn target_name(rest: &str) -> &str { rest.split('/').nth(1).and_then(|x| x.split
 /// one workspace operation on the real Workspace: add:<ns>,<name>  remove:<ns>,<name>  replace:<ns>,<name>  clear  deploy  eval:<name>
 fn workspace_op(ws: &mut dmntk_workspace::Workspace, op: &str) -> String {
   let (cmd, rest) = match op.split_once(':') { Some((c, r)) => (c, r), None => (op, "") };
+  // `~` stands for a space in a namespace or a name (operations are separated by blanks)
+  let rest_s = rest.replace('~', " ");
+  let rest = rest_s.as_str();
   let (ns, name) = rest.split_once(',').unwrap_or((rest, ""));
   match cmd {
     "add" => if ws.add(model(ns, name)).is_ok() { "ok".to_string() } else { "err".to_string() },
@@ -549,6 +557,19 @@ fn main() {
         let text = format!("{{\"data\":{}}}", v.jsonify());
         let ok = match serde_json::from_str::<serde_json::Value>(&text) { Ok(doc) => doc.get("data").map(|d| json_matches(&v, d)).unwrap_or(false), Err(_) => false };
         if !ok { nfail += 1; if failures.len() < 5 { failures.push(format!("{} rendered as {}", e, text.chars().take(300).collect::<String>())); } }
+      }
+      // context KEYS with every control character, DEL, C1 controls, format characters and the characters JSON escapes by name (keys are
+      // rendered by a different call site than string values), bare and nested in a list / another context
+      for cp in (0u32..0x20).chain([0x7Fu32, 0x80, 0x85, 0xAD, 0x200B, 0x2028, 0x2029, 0xFEFF, 0x22, 0x5C, 0x2F]) {
+        for wrap in ["{{\"k\\u{:04X}z\": 1}}", "[{{\"k\\u{:04X}z\": \"v\"}}]", "{{a: {{\"\\u{:04X}\": null}}}}"] {
+          let e = wrap.replace("{:04X}", &format!("{:04X}", cp)).replace("{{", "{").replace("}}", "}");
+          let v = lit(&e);
+          if let Value::Null(_) = v { continue; }
+          cases += 1;
+          let text = format!("{{\"data\":{}}}", v.jsonify());
+          let ok = match serde_json::from_str::<serde_json::Value>(&text) { Ok(doc) => doc.get("data").map(|d| json_matches(&v, d)).unwrap_or(false), Err(_) => false };
+          if !ok { nfail += 1; if failures.len() < 5 { failures.push(format!("{} rendered as {}", e, text.chars().take(300).collect::<String>())); } }
+        }
       }
       // numbers against their value written out here (not against the number's own text form): small and large magnitudes of both
       // signs, results whose decimal128 form has a positive or a large negative exponent, zeros with an exponent
